@@ -356,12 +356,12 @@ func (s *Service) trafficPeerChequeUpdate(peerAddress common.Address, lastCheque
 	traffic.retrieveTraffic = traffic.retrieveChainTraffic
 	traffic.transferChequeTraffic = traffic.transferChainTraffic
 	traffic.transferTraffic = traffic.transferChainTraffic
-	if cq, ok := lastCheques[peerAddress]; ok {
+	if cq, err := s.chequeStore.LastSendCheque(peerAddress); err == nil {
 		traffic.retrieveTraffic = s.maxBigint(traffic.retrieveTraffic, cq.CumulativePayout)
 		traffic.retrieveChequeTraffic = s.maxBigint(traffic.retrieveChequeTraffic, cq.CumulativePayout)
 	}
 
-	if cq, ok := lastTransCheques[peerAddress]; ok {
+	if cq, err := s.chequeStore.LastReceivedCheque(peerAddress); err == nil {
 		traffic.transferTraffic = s.maxBigint(traffic.transferTraffic, cq.CumulativePayout)
 		traffic.transferChequeTraffic = s.maxBigint(traffic.transferChequeTraffic, cq.CumulativePayout)
 	}
